@@ -195,6 +195,7 @@ type c02State struct {
 	supplyBefore sdk.Coins
 	mints, burns sdk.Coins
 	acceptedAmts []string
+	acceptedIDs  []uint64
 	beginMints   []string
 }
 
@@ -267,7 +268,7 @@ func init() {
 			for _, id := range k.GetAllAcceptedPurchaseOrders(ctx) {
 				po, ok := k.GetPurchaseOrder(ctx, id)
 				if ok && po.Status == enttypes.StatusAccepted && po.Amount.IsPositive() {
-					st.acceptedAmts = append(st.acceptedAmts, sdk.NewCoins(po.Amount).String())
+					st.acceptedIDs = append(st.acceptedIDs, id)
 				}
 			}
 			w.Notes["c02"] = st
@@ -275,6 +276,18 @@ func init() {
 		AfterBegin: func(w *World, resp abci.ResponseBeginBlock) {
 			st := w.Notes["c02"].(*c02State)
 			parseEvents(w, resp.Events, st, "begin")
+			// the orders that completed in this block: accepted before it, completed after it
+			{
+				ctx := w.C.Ctx()
+				k := w.C.App.EnterpriseKeeper
+				for _, id := range st.acceptedIDs {
+					if po, ok := k.GetPurchaseOrder(ctx, id); ok && po.Status == enttypes.StatusCompleted {
+						st.acceptedAmts = append(st.acceptedAmts, sdk.NewCoins(po.Amount).String())
+					} else {
+						w.Class("c02.accepted-order-not-completed-in-next-block")
+					}
+				}
+			}
 			a := append([]string{}, st.acceptedAmts...)
 			b := append([]string{}, st.beginMints...)
 			sort.Strings(a)
